@@ -341,10 +341,18 @@ let serial_case toks =
            let j = if pk = "polyp" then wrap j else j in
            Printf.sprintf "%s | %s # %s | %s" j (strl ws) j (strl ws)
        | "text" ->
+           (* model: the extracted Coq printer (Text.print, the loop of operator<<); spec: the string built here; plus parse-back *)
            let ws = czl rest in
            let suf = if wi = 64 then "ULL" else if wi = 32 then "UL" else "U" in
+           let nof z = M.Z.to_N z in
+           let bytes_of_string st = List.init (String.length st) (fun i -> nof (czi (Char.code st.[i]))) in
+           let string_of_bytes l = String.concat "" (List.map (fun b -> String.make 1 (Char.chr (Z.to_int (zz_of_cz (M.Z.of_N b))))) l) in
+           let sufb = bytes_of_string suf in
+           let wsn = List.map nof ws in
+           let mtxt = M.print sufb wsn in
+           let back = (match M.parse sufb mtxt with Some l when l = wsn -> "" | _ -> " PARSEBACK-FAILED") in
            let t = "{ " ^ String.concat ", " (List.map (fun v -> str v ^ suf) ws) ^ " }" in
-           t ^ " # " ^ t
+           string_of_bytes mtxt ^ back ^ " # " ^ t
        | "deser" ->
            let bytes = (match rest with [ "-" ] -> [] | [ h ] -> unhexb h | _ -> []) in
            let len = List.length bytes in
